@@ -24,6 +24,9 @@ CHECKS = {
    text='Seeded search over simulated `meson test` executions: every spawn/exit/signal is an event of the simulator, so job bound, serial exclusion and at-most-once are checked on each event and the classification/tally/exit-status claims on the recorded history. A clean batch is evidence over the sampled schedules, not a proof.',
    note='Trusted: the simulator (sim/aio/loop.py) models pipes/child exit/signals faithfully to CPython 3.12 asyncio on Linux; the reference model models/mtest_ref.py transcribes the documented classification rule. Real code: mesonbuild.mtest, asyncio streams/subprocess protocol/transport base classes.', ref='DESIGN §3 C12'),
 }
+CHECKS['C18'] = dict(engine='aio-sim', level='exploration', technique='deterministic simulation: scripted TAP producer processes on the virtual-time loop; byte stream chunked/delayed/cut at arbitrary offsets (crash, kill, timeout), exit status delivered independently; delivered prefix checked line by line against an independent TAP reference interpreter, streamed run vs direct parse for chunking invariance, verdict folded with exit status',
+   text='Seeded search over producer behaviours (what is written, how it is chunked, where the stream is cut, how the process ends). The line grammar itself is a function of its input; what the simulation adds and decides is the stream surface named in the statement: truncated streams (unterminated YAML, missing plan, partial last line), exit status arriving independently of the stream, and chunk/timing invariance of the derived events.',
+   note='Trusted: models/tap_ref.py (hand-written from the TAP 12/13 documents; undecided forms are marked and nothing is demanded on them); simulator pipe model. Real code: read_decode, TAPParser, TestRunTAP, loggers, asyncio StreamReader.', ref='DESIGN §3 C18')
 PENDING = {
  'C05': 'claimed in DESIGN §3 (ninja-sim schedules + hermetic replay) - check not built yet in this revision',
  'C06': 'claimed in DESIGN §3 (nondeterminism seams) - check not built yet in this revision',
@@ -31,7 +34,6 @@ PENDING = {
  'C09': 'claimed in DESIGN §3 (kill at every mutation point) - check not built yet in this revision',
  'C10': 'claimed in DESIGN §3 (fake network + fallback policy model) - check not built yet in this revision',
  'C11': 'claimed in DESIGN §3 (audit-hook FS monitor, install histories) - check not built yet in this revision',
- 'C18': 'claimed in DESIGN §3 (TAP streams on the aio-sim engine) - check not built yet in this revision',
 }
 m = {
  'version': 1,
